@@ -181,6 +181,7 @@ type e2eEnv struct {
 }
 
 var errUserStop = stubErr("c17 stop request")
+var errOrphan = stubErr("c17 chain service: block does not continue the chain")
 
 // runSession drives one synchronisation session to its end (or to the watchdog).
 func (env *e2eEnv) runSession(sc *e2eScenario, target uint64, faults bool, watchdog time.Duration) *e2eResult {
@@ -345,6 +346,14 @@ func (env *e2eEnv) runSession(sc *e2eScenario, target uint64, faults bool, watch
 				res.delivered = append(res.delivered, m.Block)
 				mu.Unlock()
 				rsp := &message.AddBlockRsp{BlockNo: m.Block.GetHeader().GetBlockNo(), BlockHash: m.Block.GetHash()}
+				// like the chain service in sync mode: a block that does not continue what was connected is refused
+				mu.Lock()
+				if n := len(res.delivered); n >= 2 && string(m.Block.GetHeader().GetPrevBlockHash()) != string(res.delivered[n-2].GetHash()) {
+					rsp.Err = errOrphan
+				} else if n == 1 && res.ancestor != nil && string(m.Block.GetHeader().GetPrevBlockHash()) != string(res.ancestor.Hash) {
+					rsp.Err = errOrphan
+				}
+				mu.Unlock()
 				if faults && addNo == sc.addErrAt {
 					logf("chain service refuses block %d", rsp.BlockNo)
 					rsp.Err = errStub
@@ -366,10 +375,13 @@ func (env *e2eEnv) runSession(sc *e2eScenario, target uint64, faults bool, watch
 }
 
 // check the property on what one session did
+var e2eFails int
+
 func e2eCheck(run *vh.Run, sc *e2eScenario, what string, local, remote *chainT, target uint64, res *e2eResult, mustComplete bool) bool {
 	replay := map[string]interface{}{"scenario": sc.String(), "session": what, "log": res.log}
 	fail := func(msg string) bool {
 		run.Fail(what+": "+msg, replay)
+		e2eFails++
 		return false
 	}
 	if res.hung != "" {
@@ -462,7 +474,7 @@ func runE2E(run *vh.Run, sc *e2eScenario, idx int) (steps int) {
 	defer syncer.VerifC17SetTimers(oldTick, oldHash)
 
 	target := uint64(sc.R)
-	res := env.runSession(sc, target, true, 30*time.Second)
+	res := env.runSession(sc, target, true, 12*time.Second)
 	run.Eval("e2e:"+sc.String(), res.ended && len(res.delivered) > 0)
 	if res.hung != "" {
 		e2eCheck(run, sc, "first session", local, remote, target, res, false)
@@ -505,6 +517,7 @@ func runE2E(run *vh.Run, sc *e2eScenario, idx int) (steps int) {
 	f, h, b := env.sy.VerifC17HasParts()
 	if env.sy.VerifC17IsRunning() || f || h || b {
 		run.Fail("first session: still running after its result was reported", map[string]interface{}{"scenario": sc.String(), "log": res.log})
+		e2eFails++
 		return res.steps
 	}
 	// Reset has joined every goroutine of the session before it notified: nothing more may be sent now
@@ -525,7 +538,7 @@ func runE2E(run *vh.Run, sc *e2eScenario, idx int) (steps int) {
 	syncer.VerifC17SetFetchTimeout(env.cfg, 20*time.Second)
 	syncer.VerifC17SetTimers(3*time.Millisecond, 60*time.Second)
 	target2 := uint64(sc.R + 3)
-	res2 := env.runSession(sc, target2, false, 60*time.Second)
+	res2 := env.runSession(sc, target2, false, 40*time.Second)
 	if e2eCheck(run, sc, "later session", local2, remote, target2, res2, true) {
 		run.Count("e2e:restart-ok")
 	}
@@ -561,15 +574,19 @@ func e2eRuns(run *vh.Run, n int) {
 		sc.finderDrop = rng.Intn(25) == 0
 		return sc
 	}
-	for i := 0; i < n; i++ {
+	for i := 0; i < n && e2eFails < 3; i++ {
 		runE2E(run, gen(), i)
+	}
+	if e2eFails >= 3 {
+		run.Count("e2e:abandoned-after-failures")
+		return
 	}
 	// stop requests at every step of one scenario
 	for k := 0; k < run.Pick(1, 4); k++ {
 		sc := gen()
 		sc.finderDrop, sc.hashFault, sc.addErrAt = false, 0, -1
 		steps := runE2E(run, sc, n+1000*k)
-		for st := 1; st <= steps+1; st++ {
+		for st := 1; st <= steps+1 && e2eFails < 3; st++ {
 			c := *sc
 			c.stopAt = st
 			runE2E(run, &c, n+1000*k)
